@@ -106,14 +106,18 @@ brounds = {}
 for d in sorted((V / "benign").iterdir()):
     mp = d / "meta.json"
     if mp.exists():
-        al = json.loads(mp.read_text()).get("confirmed_by_me", {}).get("alarms_at_first_run")
-        r = brounds.setdefault(d.name[0], [0, 0])
+        cm_ = json.loads(mp.read_text()).get("confirmed_by_me", {})
+        al = cm_.get("alarms_at_first_run")
+        r = brounds.setdefault(d.name[0], [0, 0, 0, 0])
         r[0] += 1
         r[1] += bool(al)
-bs = ["| round | refactorings | with a false alarm at first run | with a false alarm now |",
-      "|---|---:|---:|---:|"]
-for r, (n, a) in sorted(brounds.items()):
-    bs.append(f"| {r} | {n} | {a} | 0 |")
+        r[2] += bool(al) and all((a[1] if isinstance(a, list) else 1) == 2 for a in al)
+        r[3] += bool(cm_.get("unresolved"))
+bs = ["| round | refactorings | with a false alarm or 'cannot decide' at first run | "
+      "of these 'cannot decide' (exit 2) only | still not silent now |",
+      "|---|---:|---:|---:|---:|"]
+for r, (n, a, u, x) in sorted(brounds.items()):
+    bs.append(f"| {r} | {n} | {a} | {u} | {x} |")
 doc = doc.replace("{BENIGN_SUMMARY}", "\n".join(bs))
 doc = (doc.replace("{N_FIXES}", str(n_fix)).replace("{N_FOUND}", str(n_fix + 2))
        .replace("{N_OPEN_KEYS}", str(len(open_keys))).replace("{ROUND_TABLE}", "\n".join(rt))
